@@ -94,7 +94,14 @@ func (r *ring) NextWriteCmd() (one Completed, multi []Completed, ch chan RedisRe
 	r.read1++
 	p := r.read1 & r.mask
 	n := &r.store[p]
-	n.c1.L.Lock()
+	// The reader keeps the lock of the slot whose replies it is collecting. If the ring has
+	// wrapped onto that slot, waiting for the lock here would keep the writer from flushing
+	// the very commands the reader is waiting on: report "nothing to write" instead, so that
+	// the writer flushes and then waits in WaitForWrite.
+	if !n.c1.L.(*sync.Mutex).TryLock() {
+		r.read1--
+		return
+	}
 	if n.mark == 1 {
 		one, multi, ch = n.one, n.multi, n.ch
 		n.mark = 2
